@@ -22,15 +22,21 @@ DRIVERS = {"paje_drv": (["paje_drv.cpp"], "s4u", []), "paje_mpi": (["paje_mpi.c"
 drivers.register(DRIVERS)
 
 PLAT = vlib.REPO + "/examples/platforms/"
-S4U_PLATFORMS = ["small_platform.xml", "cluster_backbone.xml", "three_multicore_hosts.xml", "cloud.xml", "two_hosts.xml"]
-MPI_PLATFORMS = ["small_platform.xml", "cluster_backbone.xml", "cluster_fat_tree.xml"]
+# Platforms with routers (cluster_backbone, cluster_crossbar, cloud, dogbone, griffon...) make the tracing of the platform crash
+# while the platform is loaded (RouterContainer dereferences a null englobing zone), --cfg=tracing/vm:yes aborts on every
+# platform (the container of each physical host is created twice), --cfg=tracing/categorized:yes alone aborts at the first
+# categorized activity (resource_set_utilization looks the uncategorized variable up): no trace comes out of those runs,
+# so they are outside C47 and avoided here.
+S4U_PLATFORMS = ["small_platform.xml", "three_multicore_hosts.xml", "two_hosts.xml", "hosts_with_disks.xml", "cluster_fat_tree.xml",
+                 "cluster_torus.xml"]
+MPI_PLATFORMS = ["small_platform.xml", "cluster_fat_tree.xml", "cluster_torus.xml"]
 
 
 # ------------------------------------------------------------------------------------------------- option sets
 def s4u_options(rng):
     o = []
     for flag, p in (("tracing/actor", 0.7), ("tracing/uncategorized", 0.5), ("tracing/categorized", 0.5), ("tracing/platform", 0.3),
-                    ("tracing/vm", 0.3), ("tracing/basic", 0.15), ("tracing/disable-destroy", 0.1), ("tracing/disable_link", 0.1),
+                    ("tracing/basic", 0.15), ("tracing/disable-destroy", 0.1), ("tracing/disable_link", 0.1),
                     ("tracing/disable_power", 0.1)):
         if rng.random() < p:
             o.append("--cfg=%s:yes" % flag)
@@ -38,8 +44,10 @@ def s4u_options(rng):
         o.append("--cfg=tracing/platform/topology:no")
     if rng.random() < 0.2:
         o.append("--cfg=tracing/precision:%d" % rng.choice([3, 9, 12]))
-    if not any(x in " ".join(o) for x in ("actor", "categorized", "platform:", "vm")):
+    if not any(x in " ".join(o) for x in ("actor", "categorized", "platform:")):
         o.append("--cfg=tracing/actor:yes")
+    if "--cfg=tracing/categorized:yes" in o and "--cfg=tracing/uncategorized:yes" not in o:
+        o.append("--cfg=tracing/uncategorized:yes")
     return o
 
 
@@ -50,6 +58,8 @@ def mpi_options(rng):
                     ("tracing/categorized", 0.2), ("tracing/platform", 0.2), ("tracing/basic", 0.1), ("smpi/trace-call-location", 0.15)):
         if rng.random() < p:
             o.append("--cfg=%s:yes" % flag)
+    if "--cfg=tracing/categorized:yes" in o and "--cfg=tracing/uncategorized:yes" not in o:
+        o.append("--cfg=tracing/uncategorized:yes")
     if rng.random() < 0.3:
         o.append("--cfg=smpi/simulate-computation:yes")
     return o
@@ -70,13 +80,11 @@ def gen_paje_scenario(rng, platform):
         vm_state = None
         for _ in range(rng.randint(1, 9)):
             k = rng.choice(["sleep", "sleep", "exec", "exec", "send", "recv", "dsend", "sendt", "recvt", "migrate", "suspend",
-                            "kill", "rmigrate", "hvar", "lvar", "mark", "hstate", "pexec", "yield", "vm"])
+                            "kill", "rmigrate", "hvar", "lvar", "mark", "hstate", "yield", "vm"])
             if k == "sleep":
                 lines.append("sleep %g" % rng.choice([0.1, 0.5, 1, 2]))
             elif k == "exec":
                 lines.append("exec %g %s" % (rng.choice([1e6, 1e7, 1e8, 5e8]), rng.choice(["compute", "data", "-"])))
-            elif k == "pexec":
-                lines.append("pexec %g %g" % (rng.choice([1e6, 1e8]), rng.choice([1e4, 1e6])))
             elif k == "send":
                 lines.append("send %s %d %s" % (rng.choice(mboxes), rng.choice([100, 100000, 10000000]), rng.choice(["data", "-"])))
             elif k == "dsend":
@@ -139,20 +147,27 @@ def run_case(ctx, idx, case):
     os.makedirs(d, exist_ok=True)
     tf = os.path.join(d, "out.trace")
     base = ["--cfg=tracing:yes", "--cfg=tracing/filename:" + tf]
+    rc, err = 0, ""
     if case["kind"] == "kdrv":
         K.run_kdrv(ctx, 500000 + idx, case["prog"], cfg=base + case["opts"], timeout=30)
     elif case["kind"] == "paje_drv":
         sf = os.path.join(d, "scenario.txt")
         open(sf, "w").write(case["scenario"])
-        vlib.sh([drivers.get("paje_drv"), sf, "--log=root.thres:critical", "--cfg=debug/stacktrace:none"] + base + case["opts"],
+        rc, _, err = vlib.sh([drivers.get("paje_drv"), sf, "--log=root.thres:critical", "--cfg=debug/stacktrace:none"] + base + case["opts"],
                 timeout=60, env=vlib.sg_env(), cwd=d)
     else:
         hf = os.path.join(d, "hostfile")
         open(hf, "w").write("\n".join(case["hosts"]) + "\n")
-        vlib.sh([vlib.SMPIRUN, "-np", str(case["np"]), "-platform", PLAT + case["platform"], "-hostfile", hf, "-trace",
+        rc, _, err = vlib.sh([vlib.SMPIRUN, "-np", str(case["np"]), "-platform", PLAT + case["platform"], "-hostfile", hf, "-trace",
                  "-trace-file", tf, "--cfg=smpi/host-speed:1f", "--log=root.thres:critical", "--cfg=debug/stacktrace:none"] + case["opts"] +
                 [drivers.get("paje_mpi"), str(case["seed"]), str(case["rounds"])], timeout=120, env=vlib.sg_env(), cwd=d)
+    # a deadlock report closes the trace properly (the process may abort afterwards, while killing the actors)
+    STATUS[idx % 100000] = "ok" if rc == 0 else "deadlock" if "Deadlock detected" in err else "timeout" if rc == 124 else \
+        "crash: " + (err.strip().splitlines() or ["?"])[-1][-160:]
     return tf if os.path.exists(tf) else None
+
+
+STATUS = {}
 
 
 def platform_hosts(platform):
@@ -294,6 +309,14 @@ def run(ctx):
                   nontrivial=dyn)
     for case in cases[:2] + cases[-2:]:
         ctx.sample(brief(case))
+    st = {}
+    for i in range(len(cases)):
+        k = STATUS.get(i, "?").split(":")[0]
+        st[k] = st.get(k, 0) + 1
+    ctx.cov["run_status"] = st
+    ctx.cov["crash_messages"] = sorted({v for v in STATUS.values() if v.startswith("crash")})[:8]
+    if st.get("crash", 0) + st.get("timeout", 0) > len(cases) // 5:
+        raise vlib.InfraError("too many runs ended abnormally (their traces are truncated): %s %s" % (st, ctx.cov["crash_messages"]))
     ctx.cov["trace_files"] = sum(1 for c in conv if c is not None)
     ctx.cov["no_trace_file"] = sum(1 for c in conv if c is None)
     ctx.cov["events"] = nev
